@@ -61,7 +61,7 @@ ASSUMPTIONS = [
 ]
 MIN_NONTRIVIAL = {"quick": 1200, "thorough": 12000}
 REQUIRED_COUNTERS = {"triples": 1500, "triples.square": 300, "limits.noise": 50,
-                     "limits.prior": 50, "smoothing.calls": 1500, "noise.calls": 1500,
+                     "limits.prior": 50, "intdtype.calls": 400, "smoothing.calls": 1500, "noise.calls": 1500,
                      "contract.S.post": 1500, "contract.G.post": 3000, "contract.A.post": 1500}
 SHARD_TIMEOUT = {"quick": 600, "thorough": 5400}
 
@@ -635,6 +635,51 @@ def float32_first(rec):
     rec.count("history.float32_first_call")
 
 
+def check_intdtype(rec, seed):
+    """Input form: covariances (and/or the Jacobian) given as integer arrays - np.diag([4, 1, 9]), an
+    integer SPD matrix B^T B + I, a 0/1 Jacobian - next to fractional partners. Oracle: the answers equal
+    the answers for the same values given as float64 (rtol 1e-9)."""
+    from typhon.retrieval.oem import common, error
+    rng = np.random.default_rng(seed)
+    n, m = int(rng.integers(1, 7)), int(rng.integers(1, 8))
+    which = int(rng.integers(0, 4))
+    case = {"kind": "intdtype", "seed": seed}
+    S_a = np.diag(rng.integers(1, 10, n)).astype(np.int64)
+    if which == 3 and n > 1:
+        B = rng.integers(-2, 3, (n, n))
+        S_a = (B.T @ B + np.eye(n, dtype=np.int64)).astype(np.int64)
+    S_y = np.diag(rng.integers(1, 5, m)).astype(np.int64 if which in (1, 3) else float)
+    K = rng.normal(size=(m, n)) * rng.choice([0.3, 1.0, 3.0])
+    if which == 2:
+        K = rng.integers(0, 2, (m, n)).astype(np.int64)
+        S_a = S_a.astype(float) * 0.37
+        S_y = np.diag(rng.integers(1, 5, m)).astype(np.int32)
+    e_y = rng.normal(size=m)
+    fl = lambda a: np.asarray(a, dtype=float)
+    _installed["off"] = True
+    try:
+        for name, fn, extra in (("error_covariance_matrix", common.error_covariance_matrix, ()),
+                                ("retrieval_gain_matrix", common.retrieval_gain_matrix, ()),
+                                ("averaging_kernel_matrix", common.averaging_kernel_matrix, ()),
+                                ("retrieval_noise", error.retrieval_noise, (e_y,))):
+            rec.count("intdtype.calls")
+            ok_a, got = call(rec, case, name + " (integer arrays)", fn, K, S_a, S_y, *extra)
+            ok_b, want = call(rec, case, name + " (same values as float64)", fn, fl(K), fl(S_a), fl(S_y),
+                              *extra)
+            if not (ok_a and ok_b):
+                continue
+            got, want = fl(got), fl(want)
+            if got.shape != want.shape or not np.allclose(got, want, rtol=1e-9,
+                                                          atol=1e-12 * float(np.max(np.abs(want)) or 1.0)):
+                rec.violation("oem-dtype-dependent", case,
+                              {"function": name, "dtypes": [str(K.dtype), str(S_a.dtype), str(S_y.dtype)],
+                               "max_abs_diff": float(np.max(np.abs(got - want))) if got.shape == want.shape
+                               else None, "scale": float(np.max(np.abs(want)))})
+    finally:
+        _installed["off"] = False
+    rec.nontriv(["intdtype", n, m, which], seed)
+
+
 def run_shard(spec, rec):
     install_contracts(rec)
     if spec["shard"] % 2 == 1:
@@ -661,6 +706,8 @@ def run_shard(spec, rec):
             check_limits(rec, limit_params(spec["seed"], spec["shard"], i))
         if i % 6 == 3:
             check_highsnr(rec, highsnr_params(spec["seed"], spec["shard"], i))
+        if i % 10 == 4:
+            check_intdtype(rec, spec["seed"] * 100003 + spec["shard"] * 1009 + i)
         if i % 40 == 7:
             check_lookalike(rec, spec["seed"] * 100003 + spec["shard"] * 1009 + i)
 
@@ -783,6 +830,8 @@ def replay(case, rec):
         check_highsnr(rec, case["g"])
     elif case.get("sub") == "lookalike":
         check_lookalike(rec, case["seed"])
+    elif case.get("kind") == "intdtype":
+        check_intdtype(rec, case["seed"])
     else:
         if not check_triple(rec, case["g"], shrink=False):
             rec.inconc("replayed triple is outside the kappa budget")
